@@ -151,6 +151,19 @@ FIRST = {
     'C10-9': ('analysis-error', [], 'the sinking pass makes the extracted half-sweeps visible again; C10.R4 (reported energy belongs to the final '
                                     'half sweep) then fires'),
     'C02-9': ('reported', ['C13'], None),
+    # round 8: by kind of slip (contracts / conventions, numerical structure)
+    'C16-9': ('reported', ['C05', 'C06', 'C07', 'C17'], None),
+    'C04-12': ('reported', [], None),
+    'C14-13': ('reported', ['C08', 'C09', 'C10'], None),
+    'C02-10': ('analysis-error', [], 'a local step that delegates to its sibling is followed into the sibling (factorisation call found there); the '
+                                     'label-orientation rules then fire at the call sites that were not updated'),
+    'C05-11': ('reported', ['C06', 'C07'], None),
+    'C12-8': ('reported', ['C13'], None),
+    'C14-14': ('silent', [], 'K.R9 scale invariance: degree typing in the start vector, every comparison between quantities of equal degree '
+                             '(first reported for a wrong reason - an index bound the engine could not prove behind `if j == last: break`)'),
+    'C04-13': ('reported', [], None),
+    'C03-9': ('reported', ['C02'], None),
+    'C08-9': ('reported', ['C09'], None),
     # round 4: C06 (claimed late; first run = literal-shape version of the table engine)
     'C06-1': ('reported', [], None),
     'C06-2': ('reported', [], 'reported for the wrong reason at first (the conditional construction was not understood); now: undecided '
